@@ -5,6 +5,7 @@
 package c19
 
 import (
+	"strings"
 	"context"
 	"encoding/json"
 	"fmt"
@@ -54,6 +55,7 @@ type Entity struct {
 	P     *Inner         `json:"p"`
 	Tags  []string       `json:"tags"`
 	Extra map[string]any `json:"extra,omitempty"`
+	Pad   string         `json:"pad,omitempty"`
 }
 
 type RT struct {
@@ -73,11 +75,15 @@ type RT struct {
 	AutoTS   bool    `json:"auto_ts,omitempty"`
 	TypeName string  `json:"type_name,omitempty"` // WithEntityType
 	Offset   string  `json:"offset,omitempty"`    // control messages
+	Pad      int     `json:"pad,omitempty"`       // extra bytes in the entity (buffer-size boundaries)
 }
 
 type RTCase struct {
 	Store string `json:"store"` // memory sqlite durable
 	Msgs  []RT   `json:"msgs"`
+	// Batch: all messages are built first and published afterwards (a
+	// transaction assembled before it is sent) instead of one at a time.
+	Batch bool `json:"batch,omitempty"`
 }
 
 func entityOf(r RT) Entity {
@@ -99,6 +105,9 @@ func entityOf(r RT) Entity {
 	}
 	if r.I64%3 == 0 {
 		e.Extra = map[string]any{"n": nil, "arr": []any{1.5, "s"}}
+	}
+	if r.Pad > 0 {
+		e.Pad = strings.Repeat("p", r.Pad)
 	}
 	return e
 }
@@ -141,6 +150,7 @@ func RunRT(c *RTCase) *vkit.Outcome {
 	types := map[string]bool{}
 	var ctrl []string
 	var sentDocs [][]byte // JSON of every message as built
+	var pending []any     // batch mode: messages waiting to be published
 	sent := 0
 	for i, r := range c.Msgs {
 		var opts []state.ChangeOption
@@ -211,9 +221,13 @@ func RunRT(c *RTCase) *vkit.Outcome {
 				o.Failf("", "message %d: unexpected timestamp %q", i, msg.Headers.Timestamp)
 				return o
 			}
-			eventbus.Publish(bus, msg)
 			d, _ := json.Marshal(msg)
 			sentDocs = append(sentDocs, d)
+			if c.Batch {
+				pending = append(pending, msg)
+			} else {
+				eventbus.Publish(bus, msg)
+			}
 			types[tn] = true
 			switch wantOp {
 			case state.OperationDelete:
@@ -223,15 +237,27 @@ func RunRT(c *RTCase) *vkit.Outcome {
 				model[mk{tn, r.Key}] = string(b)
 			}
 		} else {
-			eventbus.Publish(bus, cm)
 			d, _ := json.Marshal(cm)
 			sentDocs = append(sentDocs, d)
+			if c.Batch {
+				pending = append(pending, cm)
+			} else {
+				eventbus.Publish(bus, cm)
+			}
 			ctrl = append(ctrl, r.Ctor)
 			if r.Ctor == "reset" {
 				model = map[mk]string{}
 			}
 		}
 		sent++
+	}
+	for _, m := range pending {
+		switch v := m.(type) {
+		case *state.ChangeMessage:
+			eventbus.Publish(bus, v)
+		case *state.ControlMessage:
+			eventbus.Publish(bus, v)
+		}
 	}
 	// stored documents use only the protocol's field names
 	var all []*eventbus.StoredEvent
